@@ -594,6 +594,9 @@ func TestVerifC14(t *testing.T) {
 			switch fam {
 			case "pos":
 				min, max = int64(rng.Intn(2)*rng.Intn(4)), top+int64(rng.Intn(6))
+				if min > max {
+					min = max
+				}
 			case "neg":
 				min, max = -top-int64(rng.Intn(6)), -1-int64(rng.Intn(2)*rng.Intn(3))
 				if max < min {
